@@ -172,6 +172,26 @@ const ALWAYS_KEPT_TOP: &[&str] = &[
     "origin_server_ts",
 ];
 
+/// The specification's table of content keys that survive redaction, per room version (room version
+/// specs, "Redactions"), written from the specification and NOT derived from the implementation.
+/// (`third_party_invite` of `m.room.member`, of which only `signed` survives from version 11 on, is
+/// left out: it is compared structurally by the other oracles.)
+fn spec_keeps_content_key(v: u32, ty: &str, k: &str) -> bool {
+    match ty {
+        "m.room.member" => k == "membership" || (k == "join_authorised_via_users_server" && v >= 9),
+        "m.room.create" => v >= 11 || k == "creator",
+        "m.room.join_rules" => k == "join_rule" || (k == "allow" && v >= 8),
+        "m.room.power_levels" => {
+            ["ban", "events", "events_default", "kick", "redact", "state_default", "users", "users_default"].contains(&k)
+                || (k == "invite" && v >= 11)
+        }
+        "m.room.history_visibility" => k == "history_visibility",
+        "m.room.aliases" => k == "aliases" && v <= 5,
+        "m.room.redaction" => k == "redacts" && v >= 11,
+        _ => false,
+    }
+}
+
 fn run_ref(ver: u32, o: CanonicalJsonObject, req: &str) -> Outcome {
     let mut t3 = Vec::new();
     let mut rng = Rng::new(fnv(req));
@@ -207,6 +227,36 @@ fn run_ref(ver: u32, o: CanonicalJsonObject, req: &str) -> Outcome {
             let r = cls_content(&reference_hash(&var, &rules));
             if r != imp {
                 t3.push(format!("reference hash depends on `{f}`: `{imp}` vs `{r}`"));
+            }
+        }
+    }
+    // "Any change to a part of the event that the hash covers changes the hash", and a change to a
+    // part redaction strips does not: for every content key that some room version's redaction table
+    // names for this event type, and that this event carries, the reference hash with that value
+    // replaced differs from the original iff the SPECIFICATION keeps the key in this room version
+    // (table written from the room version specs below, not derived from the implementation).
+    if imp.starts_with("ok ") {
+        if let (Some(CanonicalJsonValue::String(ty)), Some(CanonicalJsonValue::Object(c))) = (o.get("type"), o.get("content")) {
+            for k in c.keys() {
+                if !(1..=11).any(|v| spec_keeps_content_key(v, ty, k)) {
+                    continue;
+                }
+                let mut var = o.clone();
+                if let Some(CanonicalJsonValue::Object(c2)) = var.get_mut("content") {
+                    let new = if c.get(k) == Some(&CanonicalJsonValue::String("changed".into())) { "changed2" } else { "changed" };
+                    c2.insert(k.clone(), CanonicalJsonValue::String(new.into()));
+                }
+                let r = cls_content(&reference_hash(&var, &rules));
+                if !r.starts_with("ok ") {
+                    continue;
+                }
+                let keeps = spec_keeps_content_key(ver, ty, k);
+                if keeps && r == imp {
+                    t3.push(format!("room version {ver}: content key `{k}` of {ty} survives redaction per the specification, but changing it does not change the reference hash"));
+                }
+                if !keeps && r != imp {
+                    t3.push(format!("room version {ver}: content key `{k}` of {ty} is stripped by redaction per the specification, but changing it changes the reference hash"));
+                }
             }
         }
     }
@@ -757,6 +807,21 @@ fn gen(rng: &mut Rng, n: usize, tier: &str) -> Vec<Req> {
             ev.insert("type".into(), json!(*ty));
             let e = to_cj_obj(Value::Object(ev));
             v.push(Req::new(req_ref(ver, &e), "ref"));
+        }
+    }
+    // every version x every type with a redaction rule of its own, content carrying every key some
+    // version's table names (the covered-change oracle of run_ref then visits every cell)
+    for ver in 1..=11u32 {
+        for ty in ["m.room.member", "m.room.create", "m.room.join_rules", "m.room.power_levels", "m.room.history_visibility", "m.room.aliases", "m.room.redaction"] {
+            let mut c = serde_json::Map::new();
+            for k in ["membership", "join_authorised_via_users_server", "creator", "room_version", "m.federate", "join_rule", "allow", "ban", "events", "events_default", "kick", "redact", "state_default", "users", "users_default", "invite", "history_visibility", "aliases", "redacts"] {
+                if (1..=11).any(|v| spec_keeps_content_key(v, ty, k)) {
+                    c.insert(k.to_owned(), json!(format!("v-{k}")));
+                }
+            }
+            let e = to_cj_obj(json!({"type": ty, "sender": "@a:a.example", "state_key": "", "room_id": "!r:a.example",
+                "origin_server_ts": 1, "depth": 3, "prev_events": [], "auth_events": [], "content": Value::Object(c)}));
+            v.push(Req::new(req_ref(ver, &e), "ref.cells"));
         }
     }
     // hashes.sha256 written by hash_and_sign_event: fresh events, events that already carry `hashes`
